@@ -116,7 +116,6 @@ def convertToU128Storage (num decimals : Nat) : Option (Option (Nat × Nat)) :=
 /-! ### `pyth_price_value_to_decimal(value : u64, exponent : i32, token_decimals, precision)` -/
 inductive PythErr where
   | exponentTooSmall | exponentTooBig | priceOverflow | converting
-  | panic   -- `-exponent` overflows i32 (overflow checks on)
   deriving DecidableEq, Repr
 
 /-- `10u64.checked_pow(e)`: `10^e < 2^64` iff `e ≤ 19` (stated so that huge exponents are never
@@ -126,8 +125,8 @@ def checkedPow10 (e : Nat) : Option Nat := if e ≤ 19 then some (10 ^ e) else n
 /-- the `(price, decimals)` handed to `try_from_price` -/
 def pythPre (value : Nat) (exponent : Int) : Except PythErr (Nat × Nat) :=
   if exponent ≤ 0 then
-    if exponent < -(2 ^ 31 - 1) then .error .panic
-    else if (-exponent).toNat < 256 then .ok (value, (-exponent).toNat) else .error .exponentTooSmall
+    -- `exponent.unsigned_abs().try_into::<u8>()` (since /repo 95e9782; no negation, no overflow)
+    if (-exponent).toNat < 256 then .ok (value, (-exponent).toNat) else .error .exponentTooSmall
   else
     match checkedPow10 exponent.toNat with
     | none => .error .exponentTooBig
